@@ -169,6 +169,15 @@ fn run_history_from(server: bool, prefix: Option<usize>, announcements: &[(usize
                 model.outstanding = 0;
             }
         }
+        // A re-announcement of a smaller window that the outstanding bytes already reach: the
+        // statement does not say whether the new window applies to the call that carries it, so an
+        // acknowledgement of everything outstanding is accepted in this call or in the next one.
+        let mut also_acceptable: Option<u32> = None;
+        if let (Some(w_new), Some(_), None) = (learn_in_this_call, model.w, expect) {
+            if model.outstanding >= w_new as u64 {
+                also_acceptable = Some(model.outstanding.min(0xFFFF_FFFF) as u32);
+            }
+        }
         let r = packets_of(&mut h.sess, &piece, &mut h.clock);
         let packets = match r {
             Err((loc, msg)) => {
@@ -224,6 +233,11 @@ fn run_history_from(server: bool, prefix: Option<usize>, announcements: &[(usize
                     out.violation("acknowledgement-reports-wrong-byte-count", json!({"reported": g, "bytes_since_previous_ack": e, "history": witness(&log)}));
                     return false;
                 }
+            }
+            (Some(g), None) if also_acceptable == Some(g) => {
+                out.count("acknowledgement_in_the_call_that_shrinks_the_window", 1);
+                model.acked += model.outstanding;
+                model.outstanding = 0;
             }
             (Some(_), None) if model.w.is_none() => {
                 // the statement starts at the peer's announcement: a session that acknowledges
@@ -476,7 +490,7 @@ impl Check for C17 {
     }
     fn assumptions(&self) -> Vec<String> {
         vec![
-            "call-granular reading (DESIGN section 5): the call that carries the window announcement is not counted; a re-announcement changes W from the next call and does not reset the count".to_string(),
+            "call-granular reading (DESIGN section 5): the call that carries the first window announcement is not counted; a re-announcement does not reset the count and takes effect from the next call - or, when it shrinks the window below what is already outstanding, optionally in the call that carries it (both accepted)".to_string(),
             "when the byte count exceeds 2^32-1 (only possible for W near 2^32) the reported value may be saturated or taken modulo 2^32".to_string(),
         ]
     }
